@@ -924,10 +924,15 @@ POSTCONDITION Accepted
 def fanin_validate(v, pid, tier):
     thorough = tier == "thorough"
     runs, msgs = (12, 30) if not thorough else (120, 40)
+    extra_args = []
+    if pid == "C08":
+        # only the retained rewriter and the re-subscriber, many rounds (the race window is narrow)
+        runs, msgs = (10, 600) if not thorough else (60, 1500)
+        extra_args = ["-retonly", "1"]
     tmp = tempfile.mkdtemp(prefix="verif-fanin-")
     try:
         tf = os.path.join(tmp, "trace.ndjson")
-        p = core.run_harness(["fanin", "-seed", str(core.seed()), "-runs", str(runs), "-msgs", str(msgs), "-out", tf], timeout=1800)
+        p = core.run_harness(["fanin", "-seed", str(core.seed()), "-runs", str(runs), "-msgs", str(msgs), "-out", tf] + extra_args, timeout=1800)
         if p.returncode != 0:
             raise Infra("fanin recorder failed: %s" % p.stderr[-2000:])
         res = json.loads(p.stdout.strip().splitlines()[-1])
